@@ -17,7 +17,7 @@ def docNames : List Doc → List Name
   | d :: ds => defNames d.defs ++ docNames ds
 
 theorem NamesHyp.mono {S : Schema} {a b : List Name} (h : NamesHyp S b) (hab : ∀ n ∈ a, n ∈ b) : NamesHyp S a :=
-  ⟨h.enumNoSel, fun n hn => h.tdNoSel n (hab n hn), fun nm vs hvs hm => h.enumNotTd nm vs hvs (hab nm hm)⟩
+  ⟨h.enumNoSel, fun n hn => h.tdNoSel n (hab n hn), fun nm vs hvs hm => h.enumNotTd nm vs hvs (hab _ hm), h.enumEscInj⟩
 
 theorem NameInv.mono {S : Schema} {a b : List Name} {st : St} (h : NameInv S a st) (hab : ∀ n ∈ a, n ∈ b) :
     NameInv S b st := by
